@@ -71,12 +71,20 @@ Proof. intros s H. apply Inv_dom_lt. apply hreach_inv. exact H. Qed.
 Print Assumptions C07_ids_below_counter.
 
 (* the same for the composed model (handlers and listeners that fire, draw from
-   shared streams, (un)subscribe; statistics): [ren_y f n' y] renames the event
-   ids of the simulator part of y.  Any history h of commands, with any models
-   taking turns, gives the same snapshots, logs, deliveries to listeners,
-   draws, producer, streams and reported statistics. *)
+   shared streams, (un)subscribe; statistics; SimEvent objects that were built
+   BEFORE initialize -- [y_pre y]: their ids -- and are handed to
+   schedule_event(event) by construct_model or a handler later).  [ren_y f n' y]
+   renames the event ids of the simulator part of y and of the pre-built events;
+   [domx (y_pre y) s]: the ids of pending, referenced and pre-built events.  Any
+   history h of commands, with any models taking turns, gives the same
+   snapshots, logs, deliveries to listeners, draws, producer, streams and
+   reported statistics: also a pre-built event takes part in a run only through
+   the RANK of its id.  (In the implementation that rank is "created earlier =>
+   smaller id" in every process, because SimEvent's counter only grows; this is
+   what the multi-process tie checks with events built before / after the
+   unrelated prior activity.) *)
 Theorem C07_composed_run_id_monotone_invariant : forall nint f n' y fuel hf h,
-  (forall a, In a (dom (y_sim y)) -> a < nid (y_sim y)) -> MonoOn f n' (y_sim y) ->
+  (forall a, In a (domx (y_pre y) (y_sim y)) -> a < nid (y_sim y)) -> MonoOnX (y_pre y) f n' (y_sim y) ->
   let ra := y_hist nint fuel hf y h in
   let rb := y_hist nint fuel hf (ren_y f n' y) h in
   let ya := fst (fst ra) in let yb := fst (fst rb) in
@@ -206,7 +214,7 @@ Definition ex_model (subs : list (nat * nat)) : ymodel :=
     [ [YSchedD 0 0 5 4 5 2];
       [YObsD 0 0 0 9; YUnsub 0 2];
       [YObsD 1 0 0 9] ]
-    subs [] [[3; 14; 15; 92; 65; 35; 89; 79; 32; 38; 46; 26; 43; 38; 32; 79; 50; 28; 84; 19; 71; 69; 39; 93]].
+    subs [] [[3; 14; 15; 92; 65; 35; 89; 79; 32; 38; 46; 26; 43; 38; 32; 79; 50; 28; 84; 19; 71; 69; 39; 93]] [].
 Definition ex_run (subs : list (nat * nat)) : ysim :=
   fst (fst (y_hist ex_nint 100 100 (y0 SLog)
               [(ex_model subs, CInit (mkRepl 0 0 40)); (ex_model subs, CStart)])).
@@ -229,3 +237,23 @@ Example ex_order_matters :
   /\ user_trace (y_sim a) <> user_trace (y_sim b)
   /\ user_obs (y_sim a) <> user_obs (y_sim b).
 Proof. vm_compute. repeat split; discriminate. Qed.
+
+(* a SimEvent object built before initialize (time 8, priority 5, handler 2) is
+   handed to schedule_event(event) by construct_model after an ordinary event for
+   the same time and priority (handler 1) was scheduled: with an id below the
+   counter -- as in every process of the implementation -- it runs first; if its
+   id were above the ids of the replication (an id counter restarted at
+   initialize after earlier work in the process) it would run second *)
+Definition ex_pre_model : ymodel :=
+  mkYModel [ [YA (ASched (MAbs (TNum 8)) 5 1); YSchedPre 0]; [YA (AObs 0 1)]; [YA (AObs 0 2)] ]
+           [] [] [] [] [(8, 5, 2%nat)].
+Definition ex_pre_run (pre : list Z) : ysim :=
+  fst (fst (y_hist ex_nint 100 100 (y0p SLog pre)
+              [(ex_pre_model, CInit (mkRepl 0 0 40)); (ex_pre_model, CStart)])).
+
+Example ex_prebuilt_event_rank :
+  user_obs (y_sim (ex_pre_run [-1])) = [ObsV 0 2 8; ObsV 0 1 8]
+  /\ user_obs (y_sim (ex_pre_run [-7])) = [ObsV 0 2 8; ObsV 0 1 8]
+  /\ user_obs (y_sim (ex_pre_run [1000])) = [ObsV 0 1 8; ObsV 0 2 8]
+  /\ flag (y_sim (ex_pre_run [-1])) = false.
+Proof. vm_compute. repeat split. Qed.
